@@ -27,6 +27,7 @@ RULES = {
     "R17.1": "R == [s -> [a -> sum_e p(s,a,e) * r(s,a,e)]] (axes [S,A,E] agree across the vmap nests; sum over the event axis)",
     "R17.2": "P == fold over events and actions of scatter-ADD p(s,A[a],E[e]) at [a, s, state_to_index(next(s,A[a],E[e]))], from zeros((A,S,S))",
     "R17.3": "ValueError iff max|row sums - 1| > tolerance; the check dominates normalisation and return; the message names state and action",
+    "R17.5": "every event is accumulated exactly once: when the builder walks the events in fixed-size blocks cut with lax.dynamic_slice / dynamic_slice_in_dim at i * B inside a loop of ceil(E / B) blocks, the operand must have been padded to whole blocks - dynamic_slice CLAMPS a start that would overrun, so an unpadded last block overlaps the previous one and its events are added twice (expected count zero on today's tree: the builder loops over single events)",
     "R17.4": "returned P is the accumulated P divided by its row sums (guarded against zero); returned R is the expected reward",
 }
 ASSUMPTIONS = [
@@ -61,6 +62,7 @@ def run(ctx: Context, col) -> None:
                 stored_attr = x_
                 from ..terms import NONE as _NONE
                 I.attrs[x_] = _NONE
+    _block_slices(fn, file, col)
     TOL = S("TOL")
     try:
         t = I.call_method("build_transition_and_reward_matrices", [TOL])
@@ -210,3 +212,83 @@ def run(ctx: Context, col) -> None:
         raise AnalysisError(undecided)
     for r_ in ("R17.1", "R17.2", "R17.3", "R17.4"):
         col.floor(r_, 1)
+
+
+def _is_ceil_div(e, b_name) -> bool:
+    """-(-E // B), (E + B - 1) // B, math.ceil(E / B), with B the name b_name"""
+    def is_b(x):
+        return isinstance(x, ast.Name) and x.id == b_name
+    if isinstance(e, ast.UnaryOp) and isinstance(e.op, ast.USub):
+        v = e.operand
+        if isinstance(v, ast.BinOp) and isinstance(v.op, ast.FloorDiv) and is_b(v.right) and isinstance(v.left, ast.UnaryOp) and isinstance(v.left.op, ast.USub):
+            return True
+    if isinstance(e, ast.BinOp) and isinstance(e.op, ast.FloorDiv) and is_b(e.right):
+        txt = ast.unparse(e.left).replace(" ", "")
+        return f"+{b_name}-1" in txt or f"-1+{b_name}" in txt or txt.startswith(f"{b_name}-1+") or txt.startswith(f"{b_name}+") and txt.endswith("-1")
+    if isinstance(e, ast.Call) and ast.unparse(e.func) in ("math.ceil", "np.ceil", "jnp.ceil", "ceil") and e.args:
+        a = e.args[0]
+        return isinstance(a, ast.BinOp) and isinstance(a.op, ast.Div) and is_b(a.right)
+    if isinstance(e, ast.Call) and ast.unparse(e.func) == "int" and e.args:
+        return _is_ceil_div(e.args[0], b_name)
+    return False
+
+
+def _block_slices(fn, file, col):
+    """R17.5 - see RULES.  Purely structural: the loop body is a nested function handed to fori_loop / scan / map."""
+    assigns = {}
+    for st in ast.walk(fn):
+        if isinstance(st, ast.Assign) and len(st.targets) == 1 and isinstance(st.targets[0], ast.Name):
+            assigns.setdefault(st.targets[0].id, []).append(st.value)
+    n_checked = 0
+    for inner in [n for n in ast.walk(fn) if isinstance(n, (ast.FunctionDef, ast.Lambda)) and n is not fn]:
+        params = [a.arg for a in inner.args.args]
+        local = {}
+        for st in ast.walk(inner):
+            if isinstance(st, ast.Assign) and len(st.targets) == 1 and isinstance(st.targets[0], ast.Name):
+                local[st.targets[0].id] = st.value
+        for c in ast.walk(inner):
+            if not (isinstance(c, ast.Call) and ast.unparse(c.func).split(".")[-1] in ("dynamic_slice_in_dim", "dynamic_slice")):
+                continue
+            n_checked += 1
+            if ast.unparse(c.func).endswith("dynamic_slice_in_dim") and len(c.args) >= 3:
+                operand, start, size = c.args[0], c.args[1], c.args[2]
+            else:
+                continue  # general dynamic_slice: start / size tuples, not followed
+            if isinstance(start, ast.Name) and start.id in local:
+                start = local[start.id]
+            if not (isinstance(size, ast.Name) and isinstance(start, ast.BinOp) and isinstance(start.op, ast.Mult)):
+                continue
+            b = size.id
+            idx = start.left if (isinstance(start.right, ast.Name) and start.right.id == b) else start.right if (isinstance(start.left, ast.Name) and start.left.id == b) else None
+            if not (isinstance(idx, ast.Name) and idx.id in params):
+                continue
+            # the trip count of the loop that runs `inner`
+            name = getattr(inner, "name", None)
+            loops = [k for k in ast.walk(fn) if isinstance(k, ast.Call) and ast.unparse(k.func).split(".")[-1] in ("fori_loop", "scan", "map")
+                     and any(isinstance(a, ast.Name) and a.id == name for a in k.args)]
+            ceil = False
+            for k in loops:
+                for a in k.args:
+                    e = a
+                    if isinstance(e, ast.Name) and e.id in assigns and len(assigns[e.id]) == 1:
+                        e = assigns[e.id][0]
+                    if isinstance(e, ast.Call) and ast.unparse(e.func).split(".")[-1] == "arange" and e.args:
+                        e = e.args[0]
+                        if isinstance(e, ast.Name) and e.id in assigns and len(assigns[e.id]) == 1:
+                            e = assigns[e.id][0]
+                    if _is_ceil_div(e, b):
+                        ceil = True
+            if not ceil:
+                continue
+            padded = isinstance(operand, ast.Name) and any(
+                isinstance(v, ast.Call) and any(w in ast.unparse(v.func) for w in ("pad", "concatenate", "hstack", "vstack", "append"))
+                for v in assigns.get(operand.id, []))
+            if padded:
+                raise AnalysisError(f"build_transition_and_reward_matrices: `{ast.unparse(c)[:70]}` cuts blocks from `{operand.id}`, which is padded first; whether the padding "
+                                    "completes the last block and stays out of the sums is not decided (R17.5)")
+            col.add("R17.5", "Problem.build_transition_and_reward_matrices", file, c.lineno, False,
+                    f"`{ast.unparse(c)[:90]}` cuts block {idx.id} at {idx.id} * {b} from an operand that is not padded to whole blocks, in a loop of ceil(len / {b}) blocks: "
+                    f"dynamic_slice clamps the start of the last block to len - {b}, so when {b} does not divide the number of events the overlapped events are accumulated twice",
+                    text="block slices")
+    col.add("R17.5", "Problem.build_transition_and_reward_matrices", file, fn.lineno, True,
+            f"{n_checked} dynamic_slice call(s) in the builder examined: no unpadded block walk", text="block slices scanned")
